@@ -21,7 +21,9 @@ type Host struct {
 	// CloseAfterScript makes the host close once the script is done (EOF towards the gateway).
 	CloseAfterScript bool
 	Silent           bool // accept but never write
-	L                *sim.Listener
+	// ResetAfter >= 0: the host resets the connection after that many script writes (fault)
+	ResetAfter int
+	L          *sim.Listener
 }
 
 type HostConn struct {
@@ -35,10 +37,12 @@ type HostConn struct {
 	EOFSeq  uint64
 	AccSeq  uint64
 	Hold    bool // fault: stop playing the script
+	// Ended: the host itself ended the connection ("eof" after its script, "rst" in the middle)
+	Ended string
 }
 
 func (w *World) AddHost(addr string, script [][]byte) *Host {
-	h := &Host{W: w, Addr: addr, Script: script}
+	h := &Host{W: w, Addr: addr, Script: script, ResetAfter: -1}
 	w.Host[addr] = h
 	h.L = w.S.ListenOwned(addr, func(e *sim.End) {
 		hc := &HostConn{H: h, End: e, AccSeq: w.S.Seq}
@@ -52,6 +56,12 @@ func (w *World) AddHost(addr string, script [][]byte) *Host {
 		w.S.AddActor(fmt.Sprintf("H %s %d", addr, idx), func() bool {
 			return !hc.Hold && !h.Silent && !e.Closed && (hc.next < len(h.Script) || (h.CloseAfterScript && hc.next == len(h.Script)))
 		}, func() {
+			if h.ResetAfter >= 0 && hc.next >= h.ResetAfter {
+				e.Reset()
+				hc.Ended = "rst"
+				w.S.Count("fault.host.rst")
+				return
+			}
 			if hc.next < len(h.Script) {
 				e.Send(h.Script[hc.next])
 				hc.next++
@@ -59,6 +69,8 @@ func (w *World) AddHost(addr string, script [][]byte) *Host {
 			}
 			hc.next++
 			e.Shut()
+			hc.Ended = "eof"
+			w.S.Count("fault.host.eof")
 		})
 	})
 	return h
